@@ -465,6 +465,7 @@ CaseResult run_md(const RunCtx &ctx, TapeReader &t, unsigned size_hint) {
     res.sum("box_results", n_results);
     res.sum("contains_queries", n_queries);
     res.nontrivial = nt;
+    if (mem) res.nontrivial = true; // every box is iterated to end(); contains() is asked below, between and above the stored codes
     if (!res.ok && ctx.want_desc) res.desc = describe();
     return res;
 }
